@@ -80,6 +80,7 @@ type pathState struct {
 	domDecided int
 	captureFmt bool
 	captures   [][]value
+	sched      *sched // cooperative scheduler, when the harness enables it
 }
 
 func (ps *pathState) inReplay() bool { return ps.pos < len(ps.prefix) }
@@ -485,6 +486,68 @@ func (ps *pathState) drawRange(name string, k types.BasicKind, lo, hi int64) val
 		ps.assertCond(c)
 	}
 	return mkSym(t, k)
+}
+
+// chooseRange draws a fresh integer in [lo,hi] and concretises it at once.
+// The variable is fresh and constrained by nothing but its range, so every
+// value of the range is feasible whenever the path condition is (and that was
+// established by the solver at the last branch): the alternatives are
+// enumerated by interval reasoning, without a solver query per value. The
+// draw, its value and the decision sequence are recorded exactly as choose
+// would record them, so replay files keep their format. Used for schedule
+// choices and nd.Choose, where queries for trivially satisfiable forks
+// dominated the run time (1.2 million of them in the shutdown harness).
+func (ps *pathState) chooseRange(name string, k types.BasicKind, lo, hi int64) int64 {
+	if lo > hi {
+		panic(pathAbort{"infeasible"})
+	}
+	w := kindWidth(k)
+	t := ps.newDraw(name, types.Typ[k].Name(), bvSort(w))
+	tt := ps.tt
+	cur := lo
+	for {
+		if ps.inReplay() {
+			d := ps.prefix[ps.pos]
+			ps.pos++
+			ps.decisions = append(ps.decisions, d)
+			v := int64(d.V)
+			if kindSigned(k) {
+				v = signExt(d.V, w)
+			}
+			if d.B {
+				cur = v
+				break
+			}
+			cur = v + 1
+			if cur > hi {
+				panic(pathAbort{"infeasible"})
+			}
+			continue
+		}
+		if cur < hi {
+			sib := make([]dec, len(ps.decisions)+1)
+			copy(sib, ps.decisions)
+			sib[len(ps.decisions)] = dec{B: false, V: uint64(cur) & mask(w)}
+			var m map[string]uint64
+			if ps.model != nil {
+				m = make(map[string]uint64, len(ps.model)+1)
+				for k2, v2 := range ps.model {
+					m[k2] = v2
+				}
+				m[t.name] = uint64(cur+1) & mask(w)
+			}
+			ps.forks = append(ps.forks, workItem{prefix: sib, model: m})
+			ps.symDecisions++
+		}
+		ps.decisions = append(ps.decisions, dec{B: true, V: uint64(cur) & mask(w)})
+		break
+	}
+	if ps.model != nil {
+		ps.model[t.name] = uint64(cur) & mask(w)
+		ps.ev = nil
+	}
+	ps.assertCond(tt.eq(t, tt.bvConst(uint64(cur)&mask(w), w)))
+	return cur
 }
 
 type coverSet map[string]int
